@@ -67,6 +67,58 @@ def rand_script(rng, kind, nmax=40):
     return sc
 
 
+def derive(ops, impl):
+    """What the property predicate needs to know about a case, read off the op stream itself
+    (so that it also works on shrunk streams)."""
+    d = {'fmt': None, 'filter': '-', 'bpb': 10240, 'bil': -1, 'kind': 'all', 'mem': None, 'need': None, 'total': 0,
+         'ended': False, 'acc': None}
+    opened = False
+    ustar_need, simple = 1024, True
+    for op, o in zip(ops, impl):
+        w = op.split()
+        if not w:
+            continue
+        if w[0] == 'fmt':
+            d['fmt'] = w[1]
+        elif w[0] == 'filter':
+            d['filter'] = w[1]
+        elif w[0] == 'bpb' and not opened and int(w[1]) >= 0 and o.endswith('ok'):
+            d['bpb'] = int(w[1])
+        elif w[0] == 'bil' and o.endswith('ok'):
+            d['bil'] = int(w[1])
+        elif w[0] == 'script':
+            if any(x != 'A' for x in w[1:]):
+                d['kind'] = 'short' if all(x[0] in 'aA' and x != 'a0' for x in w[1:]) else 'fail'
+        elif w[0] == 'opener' and w[1] != '0':
+            d['kind'] = 'fail'
+        elif w[0] in ('open', 'openmem'):
+            opened = o.startswith('open ok')
+            if w[0] == 'openmem':
+                d['mem'] = min(int(w[1]), int(w[2]))
+                if d['bil'] == -1:
+                    d['bil'] = 1
+        elif w[0] == 'header':
+            if w[1] != 'reg' or not o.startswith('header ok'):
+                simple = False
+            else:
+                ustar_need += 512 + (int(w[3]) + 511) // 512 * 512
+        elif w[0] in ('data', 'fill'):
+            m = re.match(r'data (\d+) ', o)
+            if m:
+                d['total'] += int(m.group(1))
+        elif w[0] in ('close', 'free') and opened:
+            d['ended'] = True
+        m = re.search(r' acc=(\d+):', o)
+        if m:
+            d['acc'] = int(m.group(1))
+    if d['mem'] is not None and d['filter'] == '-' and d['bil'] == 1:
+        if d['fmt'] == 'raw':
+            d['need'] = d['total'] if not any(o.startswith('data f') for o in impl) else None
+        elif d['fmt'] == 'ustar' and simple:
+            d['need'] = ustar_need
+    return d
+
+
 class Cw(Engine):
     name = 'cw'
     keep_prefix = 1
@@ -98,7 +150,7 @@ class Cw(Engine):
                 ops.append(f'fill {k} {(seed + off * 7) % 256}' if rng.random() < 0.8 else 'data ' + hexs(fill(k, seed)[:k]))
                 off += k
             ops += self.ending(rng)
-            yield Case(f'raw{i}', ops, {'fmt': 'raw', 'bpb': bpb, 'bil': bil, 'kind': kind, 'filter': '-'})
+            yield Case(f'raw{i}', ops, {'fmt': 'raw', 'bpb': bpb, 'bil': bil, 'kind': kind, 'filter': '-', 'total': total})
         # 2. ustar: header / data / finish_entry / close
         for i in range(n):
             bpb, bil = rng.choice(BPBS), rng.choice(BILS)
@@ -139,7 +191,7 @@ class Cw(Engine):
                     if sz < 0:
                         continue
                     ops = ['new', f'fmt {fmt}', f'bpb {bpb}', f'openmem {sz} {sz}', plain_header(size=dl), f'fill {dl} 5', 'finish', 'close', 'free']
-                    yield Case(f'mem-{fmt}-{bpb}-{sz}', ops, {'fmt': fmt, 'bpb': bpb, 'bil': 1, 'kind': 'mem', 'filter': '-'})
+                    yield Case(f'mem-{fmt}-{bpb}-{sz}', ops, {'fmt': fmt, 'bpb': bpb, 'bil': 1, 'kind': 'mem', 'filter': '-', 'need': need, 'size': sz})
             for bil in (-1, 0, 512, 3):
                 ops = ['new', 'fmt raw', 'bpb 512', f'bil {bil}', 'openmem 2048 2048', plain_header(), 'fill 700 1', 'close', 'free']
                 yield Case(f'mem-bil{bil}', ops, {'fmt': 'raw', 'bpb': 512, 'bil': bil, 'kind': 'mem', 'filter': '-'})
@@ -206,8 +258,27 @@ class Cw(Engine):
                 for part in m.group(4).split(','):
                     s, c = part.split('*')
                     sizes += [int(s)] * int(c) if int(c) < 100000 else []
-        mt = case.meta
-        if mt.get('kind') == 'all' and mt.get('filter') == '-' and mt.get('bpb', 0) > 0 and not anybad and case.ops[-3:] == ['close', 'free', 'leakcheck']:
+        mt = derive(case.ops, impl)
+        statuses = [o.split()[1] for o in impl if re.match(r'(open|header|data|finish|close|free) ', o)]
+        failed = any(s in ('fatal', 'failed') for s in statuses)
+        if mt['mem'] is not None and mt['need'] is not None and mt['ended']:
+            # every buffer size from 0 to the needed size: too small is an error, large enough is not
+            if mt['mem'] >= mt['need'] and failed:
+                return f'memory sink: a buffer of {mt["mem"]} bytes (needed: {mt["need"]}) was reported exhausted'
+            if mt['mem'] < mt['need'] and not failed:
+                return f'memory sink: a buffer of {mt["mem"]} bytes (needed: {mt["need"]}) was not reported exhausted'
+        if mt['kind'] == 'all' and mt['filter'] == '-' and mt['fmt'] == 'raw' and mt['ended'] and not anybad and not failed and mt['mem'] is None:
+            # the last-block rule, evaluated independently (archive_write_client_close)
+            bpb, bil, total = mt['bpb'], mt['bil'], mt['total']
+            r = total % bpb if bpb else 0
+            if r == 0:
+                want = total
+            else:
+                target = bpb if bil <= 0 else min(bpb, bil * ((r + bil - 1) // bil))
+                want = total - r + max(r, target)
+            if mt['acc'] is not None and mt['acc'] != want:
+                return f'last block: {total} bytes written with bytes_per_block={bpb} bytes_in_last_block={bil} produced {mt["acc"]} bytes of output, the rule prescribes {want}'
+        if mt['kind'] == 'all' and mt['filter'] == '-' and mt['bpb'] > 0 and not anybad and mt['ended'] and not failed and mt['fmt'] in ('raw', 'ustar'):
             if any(s != mt['bpb'] for s in sizes[:-1]):
                 return f'blocking: an offer other than the last is not bytes_per_block={mt["bpb"]} bytes: {sizes[:12]}'
         return None
